@@ -241,6 +241,10 @@ static ssize_t ck_read(void* c, char* buf, size_t n) {
     OpenFile* of = getof((int)(intptr_t)c); if (!of) { errno = EBADF; return -1; }
     Fault* flt = fs_enter("read");
     if (flt && flt->err) { fs_log("read", of->path, of->off, n, -1, flt->err, flt); errno = flt->err; return -1; }
+    if (of->ino->rewriting_pid && of->ino->rewriting_pid != of->pid) {
+        // lock protocol monitor: another process reads a file between a writer's truncate and the end of its store
+        J d = J::obj(); d.set("path", of->path); d.set("reader", of->pid); d.set("writer", of->ino->rewriting_pid); hist_mon("read_in_rewrite_window", d);
+    }
     size_t sz = of->ino->data ? of->ino->data->size() : 0;
     size_t can = (size_t)of->off < sz ? sz - of->off : 0;
     size_t k = std::min(can, n);
@@ -295,6 +299,7 @@ static int sim_close_fd(int fd) {
     sim_yield(Y_FS);
     // POSIX: closing ANY descriptor of the file drops all locks the process holds on it
     if (of->ino->locks.erase(of->pid)) sim_wake_all(of->ino.get());
+    if (of->ino->rewriting_pid == of->pid) of->ino->rewriting_pid = 0;
     of->ino->opens--;
     fs_log("close", of->path, fd, 0, 0, 0, nullptr);
     if (of->fp) g_fp2fd.erase(of->fp);
@@ -348,6 +353,7 @@ int __wrap_ftruncate(int fd, off_t len) {
     if (flt) { fs_log("ftruncate", of->path, len, 0, -1, flt->err, flt); errno = flt->err; return -1; }
     size_t sz = of->ino->data ? of->ino->data->size() : 0;
     if (sz != (size_t)len) { take_snapshot("truncate", of->path); wdata(of->ino).resize(len, '\0'); }
+    of->ino->rewriting_pid = of->pid;
     fs_log("ftruncate", of->path, len, sz, 0, 0, nullptr);
     return 0;
 }
@@ -395,6 +401,7 @@ int __wrap_fcntl(int fd, int cmd, ...) {
     if (flt) { fs_log(kind, of->path, fl->l_type, cmd == F_SETLKW, -1, flt->err, flt); errno = flt->err; return -1; }
     int pid = of->pid;
     if (fl->l_type == F_UNLCK) {
+        if (of->ino->rewriting_pid == pid) of->ino->rewriting_pid = 0;
         if (of->ino->locks.erase(pid)) sim_wake_all(of->ino.get());
         fs_log(kind, of->path, fl->l_type, 0, 0, 0, nullptr);
         return 0;
